@@ -283,6 +283,11 @@ pub enum Act {
     Umount { path: usize },
     /// n mount+umount cycles at /z: advances the slot allocator without changing the namespace
     Cycle(usize),
+    /// restore_mount of a fresh backend onto a path that is mounted, at the index that mount has (what a manager
+    /// replaying its mount list does): the backend is replaced in place; not applicable when the path is not mounted
+    Remount { kind: usize, path: usize },
+    /// a mount (with a per-mount mapping) that fails after its index was allocated: the path is not absolute
+    MountBad { map: usize },
 }
 
 #[derive(Clone, Debug)]
@@ -433,6 +438,37 @@ impl World {
                         }
                     }
                 }
+            }
+            Act::Remount { kind, path } => {
+                let (_, p, _) = path_of(path);
+                if let Some(&old) = self.mounts.get(p) {
+                    let (slot, map) = (self.insts[old].slot, self.insts[old].map);
+                    let id = self.insts.len();
+                    let b = Backend { inst: id, root: KIND_ROOT[kind], log: self.log.clone() };
+                    let res = std::panic::catch_unwind(std::panic::AssertUnwindSafe(|| self.vfs.restore_mount(Box::new(b), slot, p)));
+                    self.take_log();
+                    match res {
+                        Err(_) => self.bad("remount-panic", format!("restore_mount at {} (index {}) panicked", p, slot)),
+                        Ok(Err(e)) => self.bad("remount-refused", format!("restore_mount at {} (index {}) failed: {:?}", p, slot, e)),
+                        Ok(Ok(())) => {
+                            self.insts[old].alive = false;
+                            self.insts.push(Inst { id, kind, slot, map, path: p.to_string(), alive: true });
+                            self.mounts.insert(p.to_string(), id);
+                        }
+                    }
+                }
+            }
+            Act::MountBad { map } => {
+                let id = self.insts.len();
+                let b = Backend { inst: id, root: 1, log: self.log.clone() };
+                let res = std::panic::catch_unwind(std::panic::AssertUnwindSafe(|| self.vfs.mount_with_id_mapping(Box::new(b), "rel/path", MAPS[map])));
+                self.take_log();
+                match res {
+                    Err(_) => self.bad("mount-panic", "mount at a relative path panicked".into()),
+                    Ok(Ok(slot)) => self.bad("mount-bad-path-accepted", format!("mount at the relative path rel/path succeeded with index {}", slot)),
+                    Ok(Err(_)) => {}
+                }
+                self.insts.push(Inst { id, kind: 0, slot: 0, map: None, path: "rel/path".into(), alive: false });
             }
             Act::Cycle(n) => {
                 for _ in 0..n {
@@ -878,6 +914,19 @@ fn acts(ids: bool, cycles: bool) -> Vec<Act> {
         v.push(Act::Mount { kind: kinds[0], path: PATHS.len() + i, map: maps[0] });
     }
     v.push(Act::Umount { path: PATHS.len() });
+    // a backend replaced in place at its own index (restore_mount), and a mount that fails after taking an index
+    for p in 0..PATHS.len() {
+        if !ids || p == 1 || p == 3 {
+            v.push(Act::Remount { kind: if ids { 1 } else { 2 }, path: p });
+        }
+    }
+    if ids {
+        for mp in [1, 3] {
+            v.push(Act::MountBad { map: mp });
+        }
+    } else {
+        v.push(Act::MountBad { map: 0 });
+    }
     if cycles {
         v.push(Act::Cycle(253));
         v.push(Act::Cycle(254));
@@ -1012,6 +1061,11 @@ pub fn run(args: &Args, prop: &str) -> Report {
             targeted.push(vec![mp(1, m), Act::Umount { path: 1 }, Act::Cycle(254), mp(3, 0)]);
             targeted.push(vec![mp(2, m), Act::Umount { path: 2 }, Act::Cycle(254), mp(1, 0), mp(3, 0)]);
             targeted.push(vec![mp(0, m), mp(0, 0), Act::Cycle(253), mp(0, 0)]);
+            // a mount that fails after its index (and mapping) was recorded; 254 allocations later the index is reused
+            targeted.push(vec![Act::MountBad { map: m }, Act::Cycle(254), mp(3, 0)]);
+            targeted.push(vec![mp(1, 0), Act::MountBad { map: m }, Act::Cycle(253), mp(3, 0), mp(2, 3 - m)]);
+            // a backend replaced in place keeps the mapping of its mount
+            targeted.push(vec![mp(1, m), Act::Remount { kind: 1, path: 1 }, mp(3, 0), Act::Remount { kind: 1, path: 3 }]);
         }
         let mut ex = VExplore { rep: &mut rep, cl: Client::new(), prop, ids, depth: 99, alphabet: vec![] };
         ex.cl.cap = 1 << 17;
